@@ -1198,7 +1198,9 @@ func pickFirstVisibleNamespace(ps *PushContext, byNamespace map[string]*Service,
 // the calling logic has already attempted a direct lookup of byNamespace[configNamespace]
 func pickBestVisibleNamespace(ps *PushContext, byNamespace map[string]*Service, configNamespace string) string {
 	var currentBestService *Service
-	for _, svc := range byNamespace {
+	// Iterate in namespace order: with several visible Kubernetes services, or several non-Kubernetes services of
+	// the same age, the first namespace alphabetically wins instead of whichever the map yields first.
+	for _, svc := range maps.SeqStable(byNamespace) {
 		if ps.IsServiceVisible(svc, configNamespace) {
 			// if we have a visible kube service, use it
 			if svc.Attributes.ServiceRegistry == provider.Kubernetes {
